@@ -21,8 +21,11 @@ ASSUMPTIONS = ["model domain: numeric fields are plain ASCII digit/hex strings a
                "Unicode-aware strip/title) are detected by instrumentation and skipped for the correspondence (count in coverage.distribution)",
                "theorem side condition GoodRun: no header block announces both 'Transfer-Encoding: chunked' and a positive Content-Length (RFC 7230 3.3.3); "
                "the implementation is split-dependent on such messages - observed on this run and reported as 'both-framings-split-dependent' (not a violation: outside 'well-formed')",
-               "C07_correct (unsplit parse = the messages a conformant writer sent) is established by the oracle on this run's samples, not by a theorem; the segmentation theorem extends it to every split of those streams"]
-EXPLANATION = "Lean theorems C07_* (feed (a++b) = feed a; feed b, lifted to any list of reads) over the model of HttpResponse.parse + data_received loop; differential tie on data_received"
+               "correctness against the writer is a theorem for messages framed by Content-Length or carrying no body, with header names in canonical form (C07_written_stream_any_segmentation over Spec/HttpWriter.lean); "
+               "for chunked messages and non-canonical header spellings (casing, padding) the expected messages come from this harness's own grammar (oracle on this run's samples), and the segmentation theorem extends each sample to all of its splits"]
+EXPLANATION = ("Lean theorems C07_* over the model of HttpResponse.parse + data_received loop: segmentation independence (feed (a++b) = feed a; feed b, lifted to any list of reads, any stream) and "
+               "correctness for every segmentation of every stream written by the independent writer of Spec/HttpWriter.lean (the parser returns exactly the messages written and consumes exactly their bytes); "
+               "differential tie on data_received")
 
 
 class _Fut:
